@@ -18,4 +18,7 @@ wait $relh
 if [ -f shim/iofault.c ]; then
   gcc -O2 -fPIC -shared -o shim/iofault.so shim/iofault.c -ldl
 fi
+if [ -f shim/envspy.c ]; then
+  gcc -O2 -fPIC -shared -o shim/envspy.so shim/envspy.c -ldl
+fi
 echo "setup ok"
